@@ -53,7 +53,9 @@ RandVec(c, i, k) ==
        ELSE Append(prev, RandSig(c, i))
 \* a vector aimed at a member that is listed twice in vector i: its signature, the same again or its malleated twin,
 \* and REP_i - 2 (sometimes - 1) other members
-RepKeys(c, i) == LET nd == NodesOf(c, i) IN {nd[p] : p \in {q \in 1..Len(nd) : \E r \in 1..Len(nd) : r # q /\ nd[r] = nd[q]}}
+RepKeys(c, i) == LET nd == NodesOf(c, i) IN
+                 IF Len(nd) > 40 THEN {}            \* (quadratic; long rosters get ordinary random vectors)
+                 ELSE {nd[p] : p \in {q \in 1..Len(nd) : \E r \in 1..Len(nd) : r # q /\ nd[r] = nd[q]}}
 RECURSIVE TakeSigs(_, _)
 TakeSigs(ks, k) == IF k <= 0 \/ ks = <<>> THEN <<>> ELSE <<[k |-> Head(ks), m |-> "m1", f |-> "ok"]>> \o TakeSigs(Tail(ks), k - 1)
 TwiceVec(c, i) ==
@@ -63,13 +65,41 @@ TwiceVec(c, i) ==
       oth == SetToSeq({nd[p] : p \in 1..Len(nd)} \ {kk})
   IN  <<[k |-> kk, m |-> "m1", f |-> "ok"], [k |-> kk, m |-> "m1", f |-> Pick(<<"ok", "mal">>)]>>
       \o TakeSigs(oth, rp - Pick(<<2, 2, 1>>))
+\* REP_i distinct members of vector i (as far as there are that many), each signing the message once
+HonestVec(c, i) ==
+  LET nd == NodesOf(c, i)
+      rp == IF i < Len(reps[c]) THEN reps[c][i + 1] ELSE 1
+  IN  IF Len(nd) > 40 THEN TakeSigs(SubSeq(nd, 1, rp), rp) ELSE TakeSigs(SetToSeq({nd[p] : p \in 1..Len(nd)}), rp)
 RECURSIVE RandMat(_, _)
 RandMat(c, k) == IF k = 0 THEN <<>>
                  ELSE Append(RandMat(c, k - 1),
                              IF RepKeys(c, k - 1) # {} /\ RandomElement(1..2) = 1 THEN TwiceVec(c, k - 1)
+                             ELSE IF RandomElement(1..2) = 1 THEN HonestVec(c, k - 1)
                              ELSE RandVec(c, k - 1, RandomElement(0..5)))
 OneM(c) == {RandMat(c, IF RandomElement(1..5) = 1 THEN RandomElement(0..3) ELSE Len(reps[c]))}
-SimNext == NextOf(One, OneS, OneM) /\ g' = GNext(g, ev') /\ hist' = Append(hist, [ev' EXCEPT !.ntf = <<>>])
+\* Simulation draws the arguments with a bias towards calls that get somewhere: the next contiguous vector, a
+\* well-formed batch, a REP list that fits the pending roster, signatures for containers that have REP numbers
+\* (without them everything verifies vacuously) and of the message that is verified.
+MinOf(a, b) == IF a < b THEN a ELSE b
+NPend(c) == Cardinality({v \in Vecs : \A w \in 0..v : pend[c][w] # <<>>})       \* leading non-empty pending vectors
+OneC(X) == LET Y == {c \in X : reps[c] # <<>>} IN IF Y # {} /\ RandomElement(1..8) > 1 THEN One(Y) ELSE One(X)
+SimAdd ==
+  \E S \in OneS(SignerSets), c \in One(Cids), b \in One(Batches) :
+    \E v \in {IF RandomElement(1..8) = 1 THEN RandomElement(Vecs) ELSE RandomElement(0..MinOf(NPend(c), MaxVec))},
+       bk \in {RandomElement(1..10) = 1}, dup \in {RandomElement(1..3) = 1} :
+      Add(S, c, v, b[1], b[2], bk /\ b[2] > 0, dup /\ b[2] > 0)
+SimCommit ==
+  \E S \in OneS(SignerSets), c \in One(Cids) :
+    /\ pend[c][0] # <<>> \/ RandomElement(1..6) = 1                               \* empty commits are rare
+    /\ LET fit == {rs \in RepSeqs : Len(rs) = NPend(c)} IN
+       \E rs \in (IF fit # {} /\ RandomElement(1..5) > 1 THEN One(fit) ELSE One(RepSeqs)) : Commit(S, c, rs)
+SomeReps == (\E c \in Cids : reps[c] # <<>>) \/ RandomElement(1..10) = 1
+SimVerify == SomeReps /\ \E c \in OneC(Cids), m \in {Pick(<<"m1", "m1", "m1", "m1", "m2">>)} : \E sg \in OneM(c) : Verify(c, m, sg)
+SimSubmit == SomeReps /\ \E S \in One({T \in SignerSets : "ALPHA" \notin T}), c \in OneC(Cids), m \in {Pick(<<"m1", "m1", "m1", "m1", "m2">>)} :
+               \E sg \in OneM(c) : Submit(S, c, m, sg)
+SimNext == /\ SimAdd \/ SimAdd \/ SimCommit \/ SimVerify \/ SimVerify \/ SimSubmit
+           /\ api' = ApiOf(comm', reps')
+           /\ g' = GNext(g, ev') /\ hist' = Append(hist, [ev' EXCEPT !.ntf = <<>>])
 SimSpec == MCInit /\ [][SimNext]_mcvars
 
 \* long rosters are explored to a bounded number of calls (breadth-first, so the bound is exact)
